@@ -98,6 +98,24 @@ func genConflict() {
 		l.defStrList("stmtsInstallRegularDecision", dec)
 		l.defStrList("stmtsInstallRegularAfter", after)
 
+		// installRegularFile: where the two inputs of the decision come from — `checksum` (the PAX record
+		// of the header) and `replaceMap` (the names in pkg.Replaces, raw strings): the statements before
+		// the `if checksum == nil` fallback
+		var pre []string
+		if fd := f.fn("APK.installRegularFile"); fd != nil {
+			for _, st := range fd.Body.List {
+				src := f.src(st)
+				if strings.HasPrefix(src, "if checksum == nil") || strings.HasPrefix(src, "var r io.Reader") {
+					break
+				}
+				pre = append(pre, src)
+			}
+			if len(pre) == 0 {
+				problem("install.go: statements before `if checksum == nil` of installRegularFile not found")
+			}
+		}
+		l.defStrList("stmtsInstallRegularPre", pre)
+
 		// installAPKFiles: the cases of `switch header.Typeflag`
 		cases := map[string][]string{}
 		var appendStmt string
@@ -214,6 +232,38 @@ func genConflict() {
 		l.defStrList("stmtsRecordLoop", loop)
 		hashFn(rel, "APK.InstallPackages")
 		hashFn(rel, "APK.installPackage")
+	}
+
+	// --- F07e: which of the functions on the installation path apply an owner to a node (none today)
+	{
+		var calls []string
+		for _, site := range [][2]string{
+			{"pkg/apk/apk/install.go", "APK.writeOneFile"}, {"pkg/apk/apk/install.go", "APK.installRegularFile"},
+			{"pkg/apk/apk/install.go", "APK.installAPKFiles"}, {"pkg/apk/apk/install.go", "APK.lazilyInstallAPKFiles"},
+			{"pkg/apk/apk/implementation.go", "APK.installPackage"}, {"pkg/apk/apk/implementation.go", "APK.InstallPackages"},
+			{"pkg/tarfs/fs.go", "memFS.WriteHeader"}, {"pkg/tarfs/fs.go", "memFS.writeHeader"},
+		} {
+			f := load(site[0])
+			fd := f.fn(site[1])
+			if fd == nil {
+				problem("install.go: func %s not found in %s (owner calls)", site[1], site[0])
+				continue
+			}
+			ast.Inspect(fd.Body, func(n ast.Node) bool {
+				ce, ok := n.(*ast.CallExpr)
+				if !ok {
+					return true
+				}
+				if se, ok := ce.Fun.(*ast.SelectorExpr); ok {
+					switch se.Sel.Name {
+					case "Chown", "Lchown", "Fchown":
+						calls = append(calls, site[1]+": "+f.src(ce))
+					}
+				}
+				return true
+			})
+		}
+		l.defStrList("installChownCalls", calls)
 	}
 
 	// --- pkg/apk/apk/installed.go: sortTarHeaders
